@@ -251,6 +251,10 @@ func runC09(w *World, r *Report) {
 		}
 	}
 
+	// 2b'. a vertex that arrives from a peer is stored only after its hash and seal were recomputed from its contents
+	r.rule("received-vertex-self-authenticating", "gossip admission inserts a vertex only behind the success of leaf.verify(ab.verifier) for that very vertex on every path (no memo keyed by a claimed hash stands in for it)", 1)
+	gossipVerifyBeforeAdmit(w, r, "received-vertex-self-authenticating")
+
 	// 2c. a created vertex references only tips that were valid at that moment
 	r.rule("created-vertex-references-valid-tips", "the parents CreateLeaf links a new vertex to originate only from getValidLeaves, which hands out a tip only behind validateLeaf(ctx, that tip) == nil (an aborted or failed validation never falls through to the selection)", 3)
 	createdVertexParentsValidated(w, r, "created-vertex-references-valid-tips")
@@ -488,6 +492,64 @@ func genesisReceiverUsed(fn *ssa.Function) func(ssa.Value) bool {
 func runC10(w *World, r *Report) {
 	r.NotDecided = []string{"that the configured genesis wallet never signs (deployment)", "ledgers imported by means other than the three entry points"}
 	handedOverVertexIsFresh(w, r, "handed-over-vertex-is-fresh")
+	// the entries evaluate the genesis guard when DagLoaded() says so: whatever makes it true comes after the genesis
+	// wallet was recorded
+	r.rule("loaded-implies-genesis-known", "in LoadDag and CreateGenesis no write that turns the loaded flag on is followed, in a later block, by the assignment of genesisPublicAddress (a flag claimed early lets the guard compare against the empty address)", 2)
+	for _, name := range []string{"LoadDag", "CreateGenesis"} {
+		f := w.fx(r, "accountant", "AccountingBook", name)
+		if f == nil {
+			continue
+		}
+		for _, g := range WithAnon(f.fn) {
+			var gen []ssa.Instruction
+			for _, st := range storesToField(g, "genesisPublicAddress") {
+				gen = append(gen, st)
+			}
+			var on []ssa.Instruction
+			instrsOf(g, func(in ssa.Instruction) {
+				switch x := in.(type) {
+				case *ssa.Store:
+					if fa, ok := x.Addr.(*ssa.FieldAddr); ok && fieldName(fa.X.Type(), fa.Field) == "dagLoaded" {
+						if b, isB := boolConst(x.Val); !isB || b {
+							on = append(on, x)
+						}
+					}
+				case ssa.CallInstruction:
+					n := calleeName(x)
+					if !strings.HasPrefix(n, "(*sync/atomic.Bool).") {
+						return
+					}
+					recv, a := callArgs(x)
+					fa, ok := strip(recv).(*ssa.FieldAddr)
+					if !ok || fieldName(fa.X.Type(), fa.Field) != "dagLoaded" {
+						return
+					}
+					switch {
+					case strings.HasSuffix(n, ".Store") || strings.HasSuffix(n, ".Swap"):
+						if b, isB := boolConst(a[0]); !isB || b {
+							on = append(on, x)
+						}
+					case strings.HasSuffix(n, ".CompareAndSwap"):
+						if b, isB := boolConst(a[1]); !isB || b {
+							on = append(on, x)
+						}
+					}
+				}
+			})
+			for _, o := range on {
+				// no way from the flag going on to a (later) assignment of the genesis address, except inside the one
+				// straight-line block that does both under the ledger lock
+				early := false
+				after := reachable(o.Block().Succs, nil)
+				for _, gs := range gen {
+					if gs.Block() != o.Block() && after[gs.Block()] {
+						early = true
+					}
+				}
+				r.check(!early && len(gen) > 0, "loaded-implies-genesis-known", name+"/flag-on", lineOf(w, o), "the loaded flag goes on after the genesis wallet is known", "the flag is turned on on a path that assigns the genesis address only later: meanwhile the genesis guard compares against the empty address")
+			}
+		}
+	}
 	type guard struct {
 		label string
 		edges gspec
@@ -958,6 +1020,21 @@ func runC13(w *World, r *Report) {
 				}
 			})
 			r.check(inc, "buffer-bounds", "insert/increment-first", lineOf(w, app), "the retry counter is incremented before the vertex is parked again", "no dominating increment")
+			// insert is the only way into the list: a second door would park without counting
+			extra := ""
+			for _, g := range w.RepoFuncs("accountant") {
+				if g == bi.fn {
+					continue
+				}
+				instrsOf(g, func(in ssa.Instruction) {
+					if c, ok := in.(*ssa.Call); ok {
+						if b, ok := c.Call.Value.(*ssa.Builtin); ok && b.Name() == "append" && len(c.Call.Args) > 0 && strings.HasSuffix(pathOf(c.Call.Args[0]), ".members") && strings.Contains(c.Call.Args[0].Type().String(), "memory") {
+							extra += " " + shortFn(g) + " appends to the parked list at " + lineOf(w, c) + ";"
+						}
+					}
+				})
+			}
+			r.check(extra == "", "buffer-bounds", "insert/only-door", lineOf(w, app), "the parked list grows only through insert (bounded size, counted retries)", extra)
 			// parked means parked: insert reports success only when the vertex went into the list (the caller answers
 			// "parent unknown, will retry" on the strength of it; a success that parks nothing loses the vertex for good)
 			silent := 0
@@ -1222,6 +1299,55 @@ func runC13(w *World, r *Report) {
 			_, a := callArgs(d.c)
 			own := len(rl.fn.Params) > 1 && len(a) > 0 && sameVal(d.argValue(a[0]), rl.fn.Params[1])
 			r.check(own, "retry-reenters-admission", "runLeafSubscriber/replay-context", lineOf(w, d.c), "the replay is admitted under the subscriber loop's own context", "context argument is "+d.path(a[0]))
+		}
+		// every vertex taken from the buffer is replayed: between receiving it and waiting for the next one the loop passes
+		// the admission call (only an empty pop — nil vertex — is skipped). A vertex that is put aside without a replay has
+		// lost its wake-up: nothing else will try it again.
+		if len(cs) == 1 {
+			d := cs[0]
+			_, a := callArgs(d.c)
+			var recvAt ssa.Instruction
+			for _, o := range origins(d.argValue(a[1])) {
+				if ex, isEx := o.(*ssa.Extract); isEx {
+					if _, isSel := ex.Tuple.(*ssa.Select); isSel {
+						recvAt = ex
+					}
+				}
+			}
+			site := d.c.(ssa.Instruction)
+			if len(d.chain) > 0 {
+				site = d.chain[0].(ssa.Instruction)
+			}
+			if recvAt != nil && recvAt.Parent() == site.Parent() {
+				fnR := recvAt.Parent()
+				var emptyPop []Edge
+				for _, b := range fnR.Blocks {
+					for i := range b.Succs {
+						for _, ft := range edgeFacts(Edge{b, i}) {
+							if ft.kind == fIsNil && strings.HasSuffix(pathOf(ft.x), ".vrx") {
+								emptyPop = append(emptyPop, Edge{b, i})
+							}
+						}
+					}
+				}
+				lost := 0
+				sel := recvAt.(*ssa.Extract).Tuple.(*ssa.Select)
+				walkFrom(recvAt, nil, edgeSet(emptyPop), func(x ssa.Instruction) bool {
+					if x == site {
+						return true
+					}
+					if x == ssa.Instruction(sel) {
+						lost++
+						return true
+					}
+					if _, isRet := x.(*ssa.Return); isRet {
+						lost++
+						return true
+					}
+					return false
+				})
+				r.check(lost == 0, "retry-reenters-admission", "runLeafSubscriber/received-is-replayed", lineOf(w, recvAt), "every vertex received from the buffer goes through the admission before the next one is awaited", fmt.Sprintf("%d ways from the receive to the next wait (or out) without replaying the vertex", lost))
+			}
 		}
 		// neither the DAG nor the transaction index is touched by the retry loop itself (or by helpers it calls
 		// beside the admission): whatever a replay returns, the state of admitted vertices belongs to the admission path
@@ -1630,7 +1756,6 @@ func syncGuardObligations(w *World, r *Report, rule string) {
 
 }
 
-
 // deletesTip: the vertex x removed at instruction at (a DeleteVertex call, or the call of a helper that performs it)
 // cannot have children: it was just inserted, it was taken from GetLeaves(), or the site lies behind
 // IsLeaf(id) == true for the id the vertex was looked up with.
@@ -1678,7 +1803,6 @@ func deletesTip(w *World, fn *ssa.Function, at ssa.Instruction, x ssa.Value) (bo
 	}
 	return false, fmt.Sprintf("vertex %s looked up by %q is deleted without IsLeaf(%s) == true on the path: its children would keep a parent that is neither live nor checkpointed", v, lookupArg, lookupArg)
 }
-
 
 // handedOverVertexIsFresh: the ledger keeps the pointer it is given (a vertex whose parent is unknown is parked and
 // replayed later WITHOUT the entry guards of AddLeaf, on the strength of having passed them once). The object handed to
@@ -2055,7 +2179,6 @@ func capturedCell(fv *ssa.FreeVar) *ssa.Alloc {
 	return out
 }
 
-
 // parentsExist: gossip admission inserts a vertex only after a loop over both declared parent hashes in which every
 // iteration crossed the found-edge of the graph lookup for its element (shared by C09 — every vertex has an edge from each
 // declared parent — and C01: a vertex admitted without its parents has no edges, is a root, and validateLeaf exempts roots
@@ -2120,7 +2243,6 @@ func parentsExist(w *World, r *Report, rule string) {
 		}
 	}
 }
-
 
 // runsOnlyDeferred: fn is a function literal whose every use is the operand of a defer (`defer func() { … }()`).
 func runsOnlyDeferred(fn *ssa.Function) bool {
